@@ -272,6 +272,23 @@ func pair(r *ev.Run, sg sysgen, a, b string, extra []string, rng *rand.Rand) {
 		}
 		r.Count("reversed_set_text_operands:"+sg.name, 1)
 	}
+	// And with an <empty> span written before, between and after the others
+	// (ParseSetConstraint accepts it): it adds nothing to the set, and the
+	// set is empty exactly when it matches nothing.
+	var withEmpty []*semver.Constraint
+	var plain []*semver.Constraint
+	for _, o := range []*semver.Constraint{aO, bO} {
+		vs := emptySpanVariants(sg, o)
+		if len(vs) > 0 {
+			if p, err := sg.sys.ParseSetConstraint(o.Set().String()); err == nil {
+				for range vs {
+					plain = append(plain, p)
+				}
+				withEmpty = append(withEmpty, vs...)
+			}
+		}
+	}
+	r.Count("empty_span_set_texts:"+sg.name, int64(len(withEmpty)))
 	onlyOne, both := false, false
 	done := map[string]bool{}
 	for _, vs := range cands {
@@ -297,6 +314,14 @@ func pair(r *ev.Run, sg sysgen, a, b string, extra []string, rng *rand.Rand) {
 		for _, rc := range recvs {
 			if rc.Set().MatchVersion(v) != ma || rc.MatchVersionPrerelease(v) != pa {
 				rep("receiver-source-modified", fmt.Sprintf("v=%s: the constraint A, whose Set() value was the receiver of a Union/Intersect with B, now matches %v/%v (it matched %v/%v); it prints %s", vs, rc.Set().MatchVersion(v), rc.MatchVersionPrerelease(v), ma, pa, rc.Set().String()))
+			}
+		}
+		for k, we := range withEmpty {
+			if m, want := we.MatchVersionPrerelease(v), plain[k].MatchVersionPrerelease(v); m != want {
+				rep("set-text:empty-span", fmt.Sprintf("v=%s: %s matches %v, the same text without the <empty> span %v", vs, we.String(), m, want))
+			}
+			if set := we.Set(); set.Empty() && (we.MatchVersionPrerelease(v) || set.MatchVersion(v)) {
+				rep("empty", fmt.Sprintf("v=%s matched by a set reported Empty(): %s", vs, we.String()))
 			}
 		}
 		if revA != nil && sortedA.MatchVersionPrerelease(v) != revA.MatchVersionPrerelease(v) {
@@ -395,6 +420,28 @@ func setTextOperands(sg sysgen, c *semver.Constraint) (sorted, rev *semver.Const
 		return nil, nil
 	}
 	return sorted, rev
+}
+
+// emptySpanVariants parses the operand's printed set with an <empty> span
+// added in first, in last and (two spans or more) in second position. Texts
+// that do not parse are left out.
+func emptySpanVariants(sg sysgen, c *semver.Constraint) []*semver.Constraint {
+	txt := c.Set().String()
+	if !strings.HasPrefix(txt, "{") || !strings.HasSuffix(txt, "}") || txt == "{<empty>}" || txt == "{}" {
+		return nil
+	}
+	spans := strings.Split(txt[1:len(txt)-1], ",")
+	texts := []string{"{<empty>," + txt[1:], txt[:len(txt)-1] + ",<empty>}"}
+	if len(spans) >= 2 {
+		texts = append(texts, "{"+spans[0]+",<empty>,"+strings.Join(spans[1:], ",")+"}")
+	}
+	var out []*semver.Constraint
+	for _, t := range texts {
+		if n, err := sg.sys.ParseSetConstraint(t); err == nil {
+			out = append(out, n)
+		}
+	}
+	return out
 }
 
 // reparse parses a set constraint's own text again (a fresh object).
